@@ -1219,6 +1219,42 @@ class Evaluator:
         except Return as r:
             return r.value
 
+    def _option_mutator(self, n, path, args, env):
+        """`local.get_or_insert(x)`, `.insert(x)`, `.take()`, `.replace(x)` on an Option held in a plain local whose current
+        value is concretely known: the method's effect on the local and its result are folded (anything else stays opaque)"""
+        recv = n.get("recv")
+        if not isinstance(recv, dict):
+            return NotImplemented
+        r0 = recv.get("e") if recv.get("k") == "addr" else recv
+        if not (isinstance(r0, dict) and r0.get("k") == "path"):
+            return NotImplemented
+        nm = (r0.get("res") or {}).get("local")
+        cur = env.get(nm) if nm is not None else None
+        if not (isinstance(cur, V) and cur.path in (SOME, NONE)) or not args or args[0] is not cur and args[0] != cur:
+            return NotImplemented
+        name = path.rsplit("::", 1)[-1]
+        if name == "take" and len(args) == 1:
+            env[nm] = V(NONE, ())
+            return cur
+        if name == "insert" and len(args) == 2:
+            env[nm] = V(SOME, (args[1],))
+            return args[1]
+        if name == "replace" and len(args) == 2:
+            env[nm] = V(SOME, (args[1],))
+            return cur
+        if name == "get_or_insert" and len(args) == 2:
+            if cur.path == NONE:
+                env[nm] = V(SOME, (args[1],))
+                return args[1]
+            return cur.args[0]
+        if name == "get_or_insert_with" and len(args) == 2 and isinstance(args[1], Closure):
+            if cur.path == NONE:
+                v = self.apply_closure(args[1], [])
+                env[nm] = V(SOME, (v,))
+                return v
+            return cur.args[0]
+        return NotImplemented
+
     def panic_from_macro(self, n):
         l = n.get("l")
         if isinstance(l, list):
@@ -1238,6 +1274,10 @@ class Evaluator:
                 r = st(args, env, self) if getattr(st, "wants_env", False) else st(args)
                 if r is not NotImplemented:
                     return r
+        if path in _OPTION_MUTATORS:
+            r = self._option_mutator(n, path, args, env)
+            if r is not NotImplemented:
+                return r
         b = BUILTINS.get(path) or BUILTINS.get(target)
         if b is not None:
             r = b(self, n, args)
@@ -1742,6 +1782,8 @@ def _b_str_eq_ignore_case(ev, n, a):
         return a[0].lower() == a[1].lower()
     return Sym("eq_ignore_ascii_case", tuple(a))
 
+
+_OPTION_MUTATORS = {"core::option::Option::<T>::" + m for m in ("take", "insert", "replace", "get_or_insert", "get_or_insert_with")}
 
 BUILTINS = {
     "core::option::Option::<T>::unwrap_or": _b_unwrap_or,
